@@ -30,6 +30,8 @@ def run_one(prop: str, tier: str, root: str, evidence_dir: str) -> int:
         ctx = Ctx(root, tier)
         mod.run(ctx, rep)
         rep, ctx = second_chance(prop, mod, tier, root, rep, ctx)
+        from sa.rules.model import check_model
+        check_model(ctx, rep)  # premises of the resolved-program model itself (whole package), part of every property's argument
         rep.analysed.update(ctx.analysed())
         if tier == "thorough":
             thorough_extras(prop, mod, root, rep)
